@@ -33,7 +33,7 @@ func famChainID(r *hx.Rng, o *hx.Out) {
 	for _, s := range fixed {
 		emit(s, "fixed")
 	}
-	n := hx.N(150, 5000)
+	n := hx.N(150, 2000)
 	for i := 0; i < n; i++ {
 		switch r.Intn(3) {
 		case 0:
@@ -73,7 +73,7 @@ func famNewTrusting(r *hx.Rng, o *hx.Out) {
 	emit(-5, 3, 2, "negative")
 	emit(5, -3, 2, "negative")
 	emit(5, 3, -2, "negative")
-	n := hx.N(300, 20000)
+	n := hx.N(300, 4000)
 	for i := 0; i < n; i++ {
 		ou := int64(r.U64B() >> 1)
 		if ou == 0 {
@@ -154,7 +154,7 @@ func famMatch(r *hx.Rng, o *hx.Out) {
 	}
 	fields := []string{"none", "chain", "tl-num", "tl-den", "trusting", "unbonding", "drift", "frozen", "latest", "specs", "specs-empty",
 		"upath", "upath-order", "upath-empty", "flags"}
-	n := hx.N(60, 1500)
+	n := hx.N(60, 600)
 	for i := 0; i < n; i++ {
 		a, b := mk(), mk()
 		f := fields[i%len(fields)]
